@@ -4,10 +4,6 @@ CONSTANTS
   MaxLen = 4
   FaultModes = {"ee", "ew", "we", "ww"}
 CONSTRAINT Track
-INVARIANT TypeOK
-INVARIANT BusyIffAlive
-INVARIANT ErrorReported
-INVARIANT Settled
 INVARIANT Done
 POSTCONDITION Verdicts
 CHECK_DEADLOCK FALSE
